@@ -111,7 +111,7 @@ theorem zeroPairs_fst (a : Aut V) (o : AccOpts) (v : V) :
   split_ifs <;> rfl
 
 /-- the words of the specification do not depend on the representation -/
-theorem accSpec_words (ρ : Rep n R) (a : Aut V) (o : AccOpts) :
+theorem accSpec_words (ρ : Rep n R) (hp : ρ.parseSimple = true) (a : Aut V) (o : AccOpts) :
     ∀ (L : Nat) (v : V) (pairs : List (String × DMat n n R)),
       ρ.accSpec a o L v = .ok pairs → pairs.map Prod.fst = a.accWords o L v
   | 0, v, pairs, h => by
@@ -133,7 +133,8 @@ theorem accSpec_words (ρ : Rep n R) (a : Aut V) (o : AccOpts) :
         rw [List.flatten_cons, List.map_append, List.flatMap_cons, ih]
         congr 1
         obtain ⟨r, e, hr, he, rfl⟩ := specBody_ok h1
-        rw [extendPairs_fst, accSpec_words ρ a o k _ r hr]
+        rw [extendPairs_fst, accSpec_words ρ hp a o k _ r hr]
+        simp only [joinW_simple hp]
         cases o.asStart <;> rfl
 
 end Rep
@@ -578,11 +579,11 @@ def endLang (a : Aut V) (maxlen : Bool) (L : Nat) (v : V) : List String :=
 
 /-- **`accepted_words_start`**: with `as_start`, the returned words are exactly the label
 words of the paths from the state, each once per path -/
-theorem accepted_words_start (ρ : Rep n R) (a : Aut V) (o : AccOpts) (h1 : o.asStart = true)
+theorem accepted_words_start (ρ : Rep n R) (hp : ρ.parseSimple = true) (a : Aut V) (o : AccOpts) (h1 : o.asStart = true)
     (L : Nat) (v : V) (pairs : List (String × DMat n n R))
     (h : ρ.accSpec a o L v = .ok pairs) :
     (pairs.map Prod.fst).Perm (startLang a o.maxlen L v) := by
-  rw [accSpec_words ρ a o L v pairs h]
+  rw [accSpec_words ρ hp a o L v pairs h]
   unfold startLang
   cases h2 : o.maxlen
   · exact Aut.accWords_start_exact a o h1 h2 L v
@@ -590,33 +591,33 @@ theorem accepted_words_start (ρ : Rep n R) (a : Aut V) (o : AccOpts) (h1 : o.as
 
 /-- **`accepted_words_end`**: with an end state, the returned words are exactly the label
 words of the paths from a start vertex to that state, each once per path -/
-theorem accepted_words_end (ρ : Rep n R) (a : Aut V) (hwf : a.WF) (o : AccOpts)
+theorem accepted_words_end (ρ : Rep n R) (hp : ρ.parseSimple = true) (a : Aut V) (hwf : a.WF) (o : AccOpts)
     (h1 : o.asStart = false) (L : Nat) (v : V) (pairs : List (String × DMat n n R))
     (h : ρ.accSpec a o L v = .ok pairs) :
     (pairs.map Prod.fst).Perm (endLang a o.maxlen L v) := by
-  rw [accSpec_words ρ a o L v pairs h]
+  rw [accSpec_words ρ hp a o L v pairs h]
   unfold endLang
   cases h2 : o.maxlen
   · exact Aut.accWords_end_exact a hwf o h1 h2 L v
   · exact Aut.accWords_end_maxlen a hwf o h1 h2 L v
 
 /-- **`accepted_eq_enumerate`**: agreement with the automaton's own `enumerate_words` -/
-theorem accepted_eq_enumerate (ρ : Rep n R) (a : Aut V) (o : AccOpts) (h1 : o.asStart = true)
+theorem accepted_eq_enumerate (ρ : Rep n R) (hp : ρ.parseSimple = true) (a : Aut V) (o : AccOpts) (h1 : o.asStart = true)
     (h2 : o.maxlen = true) (L : Nat) (v : V) (pairs : List (String × DMat n n R))
     (ws : List (String × V)) (h : ρ.accSpec a o L v = .ok pairs)
     (he : a.enumWords v L = .ok ws) : (pairs.map Prod.fst).Perm (ws.map Prod.fst) := by
-  have := accepted_words_start ρ a o h1 L v pairs h
+  have := accepted_words_start ρ hp a o h1 L v pairs h
   rw [Aut.enumWords_eq a v L ws he, List.map_flatMap]
   unfold startLang at this
   rw [h2, if_pos rfl] at this
   exact this
 
 /-- … and, for `maxlen=False`, with `enumerate_fixed_length_paths` -/
-theorem accepted_eq_enumFixed (ρ : Rep n R) (a : Aut V) (o : AccOpts) (h1 : o.asStart = true)
+theorem accepted_eq_enumFixed (ρ : Rep n R) (hp : ρ.parseSimple = true) (a : Aut V) (o : AccOpts) (h1 : o.asStart = true)
     (h2 : o.maxlen = false) (L : Nat) (v : V) (pairs : List (String × DMat n n R))
     (ws : List (String × V)) (h : ρ.accSpec a o L v = .ok pairs)
     (he : a.enumFixed v L = .ok ws) : (pairs.map Prod.fst).Perm (ws.map Prod.fst) := by
-  have := accepted_words_start ρ a o h1 L v pairs h
+  have := accepted_words_start ρ hp a o h1 L v pairs h
   rw [Aut.enumFixed_eq a v L ws he]
   unfold startLang at this
   rw [h2] at this
@@ -624,7 +625,7 @@ theorem accepted_eq_enumFixed (ρ : Rep n R) (a : Aut V) (o : AccOpts) (h1 : o.a
 
 /-- the language of the public wrapper, start direction (`end_state=None`):
 `start_state=None` means `start_vertices[0]` -/
-theorem automatonAccepted_words_start (ρ : Rep n R) (a : Aut V) (L : Nat) (maxlen : Bool)
+theorem automatonAccepted_words_start (ρ : Rep n R) (hp : ρ.parseSimple = true) (a : Aut V) (L : Nat) (maxlen : Bool)
     (startState : Option V) (memo memo' : Memo V n R) (edgeWords : Bool) (res : AccRes n R)
     (s : V) (hs : (startState <|> a.starts.head?) = some s)
     (hm : MemoOK ρ a (topOpts maxlen true (none : Option V) edgeWords) memo)
@@ -639,7 +640,7 @@ theorem automatonAccepted_words_start (ρ : Rep n R) (a : Aut V) (L : Nat) (maxl
   cases startState with
   | some s0 =>
     cases hs
-    exact accepted_words_start ρ a ⟨maxlen, true, true, edgeWords⟩ rfl L _ pairs hsp
+    exact accepted_words_start ρ hp a ⟨maxlen, true, true, edgeWords⟩ rfl L _ pairs hsp
   | none =>
     cases L with
     | zero =>
@@ -654,27 +655,27 @@ theorem automatonAccepted_words_start (ρ : Rep n R) (a : Aut V) (L : Nat) (maxl
       | cons s0 t =>
         rw [hst] at hsp hs
         cases hs
-        exact accepted_words_start ρ a ⟨maxlen, true, true, edgeWords⟩ rfl (k + 1) _ pairs hsp
+        exact accepted_words_start ρ hp a ⟨maxlen, true, true, edgeWords⟩ rfl (k + 1) _ pairs hsp
 
 /-- the language of the public wrapper, end direction -/
-theorem automatonAccepted_words_end (ρ : Rep n R) (a : Aut V) (hwf : a.WF) (L : Nat)
+theorem automatonAccepted_words_end (ρ : Rep n R) (hp : ρ.parseSimple = true) (a : Aut V) (hwf : a.WF) (L : Nat)
     (maxlen : Bool) (e : V) (memo memo' : Memo V n R) (edgeWords : Bool) (res : AccRes n R)
     (hm : MemoOK ρ a (topOpts maxlen true (some e) edgeWords) memo)
     (h : ρ.automatonAccepted a L maxlen true none (some e) memo edgeWords = .ok (res, memo')) :
     res.words.Perm (endLang a maxlen L e) := by
   obtain ⟨⟨pairs, hsp, rfl⟩, _⟩ :=
     automatonAccepted_sound ρ a L maxlen true none (some e) memo memo' edgeWords res hm h
-  exact accepted_words_end ρ a hwf ⟨maxlen, true, false, edgeWords⟩ rfl L e pairs hsp
+  exact accepted_words_end ρ hp a hwf ⟨maxlen, true, false, edgeWords⟩ rfl L e pairs hsp
 
 /-- the public wrapper agrees with `automaton.enumerate_words(length, start_vertex)` as a
 multiset of words (`maxlen=True`, `with_words=True`) -/
-theorem automatonAccepted_eq_enumerate (ρ : Rep n R) (a : Aut V) (L : Nat)
+theorem automatonAccepted_eq_enumerate (ρ : Rep n R) (hp : ρ.parseSimple = true) (a : Aut V) (L : Nat)
     (startState : Option V) (memo memo' : Memo V n R) (edgeWords : Bool) (res : AccRes n R)
     (s : V) (hs : (startState <|> a.starts.head?) = some s) (ws : List (String × V))
     (hm : MemoOK ρ a (topOpts true true (none : Option V) edgeWords) memo)
     (h : ρ.automatonAccepted a L true true startState none memo edgeWords = .ok (res, memo'))
     (he : a.enumWords s L = .ok ws) : res.words.Perm (ws.map Prod.fst) := by
-  have := automatonAccepted_words_start ρ a L true startState memo memo' edgeWords res s hs hm h
+  have := automatonAccepted_words_start ρ hp a L true startState memo memo' edgeWords res s hs hm h
   rw [Aut.enumWords_eq a s L ws he, List.map_flatMap]
   exact this
 
